@@ -40,6 +40,9 @@ func casedPositions(rs []rune) []int {
 }
 
 // respellings returns the case re-spellings of q (q itself lower-cased first).
+// c20AllPatterns: up to how many cased letters every one of the 2^n patterns is taken (thorough: 9)
+var c20AllPatterns = 6
+
 func respellings(q string) []string {
 	rs := []rune(strings.ToLower(q))
 	pos := casedPositions(rs)
@@ -54,7 +57,7 @@ func respellings(q string) []string {
 		return string(out)
 	}
 	var out []string
-	if n <= 6 {
+	if n <= c20AllPatterns {
 		for mask := 0; mask < 1<<n; mask++ {
 			m := mask
 			out = append(out, mk(func(k int) bool { return m&(1<<k) != 0 }))
@@ -166,10 +169,14 @@ func c20Queries() []string {
 	return out
 }
 
-func c20DBs() []dbSpec {
+func c20DBs(thorough bool) []dbSpec {
 	sub := []int{0, 2, 4, 5, 6, 20, 21, 22, 24, 25}
 	var out []dbSpec
-	for _, s := range uSubsets(len(sub), 2) {
+	k := 2
+	if thorough {
+		k = 3
+	}
+	for _, s := range uSubsets(len(sub), k) {
 		idx := make([]int, len(s))
 		for i, j := range s {
 			idx[i] = sub[j]
@@ -197,10 +204,14 @@ func c20Build(c *lib.Ctx, s dbSpec) *database.Database {
 func c20Run(c *lib.Ctx) {
 	vhost.Set("linux")
 	defer vhost.Set("")
+	c20AllPatterns = 6
+	if c.Thorough() {
+		c20AllPatterns = 9
+	}
 	qs := c20Queries()
 	var idx int64
 	selfCheck := 0
-	for di, spec := range c20DBs() {
+	for di, spec := range c20DBs(c.Thorough()) {
 		if !c.Mine(int64(di)) {
 			continue
 		}
@@ -305,7 +316,7 @@ func c20Run(c *lib.Ctx) {
 func init() {
 	lib.Register(&lib.Check{
 		ID: "C20", Level: "model_checking",
-		Rule:      "every query (all 1- and 2-word sequences over the lower-cased 22-word alphabet + 26 typo / NLP / non-ASCII queries + 5 stop-word-laden queries of up to 11 words + 6 queries naming a platform or its shell) x every case re-spelling (all 2^n patterns when the query has n<=6 cased letters, else lower/UPPER/Title/alternating/last-letter) x paths {lexical, NLP, fuzzy thr 0, fuzzy thr -30, NLP+fuzzy, cached (q then Q, served from q's entry, also compared with a fresh search of Q), suggestions; for queries of >=4 words also lexical with TopTermsCap 4 and NLP with TopTermsCap 5} x databases (all subsets of <=2 of 10 pool entries incl. upper-case and non-ASCII text, the 40-entry database, a Cyrillic/Greek/Latin-1 database, a database with the NLP expansion vocabulary): answers must be bit-identical to the lower-case spelling's; 8 white-space paddings of every query (ASCII and Unicode blanks, leading / trailing / repeated) through ValidateQuery: the validated form is the plain query's, or else every path must answer both forms alike. Letters re-cased only between ToLower/ToUpper forms that are mutually inverse and fold-equivalent. evaluations = searches; non-trivial = pairs with a non-empty answer",
+		Rule:      "every query (all 1- and 2-word sequences over the lower-cased 22-word alphabet + 26 typo / NLP / non-ASCII queries + 5 stop-word-laden queries of up to 11 words + 6 queries naming a platform or its shell) x every case re-spelling (all 2^n patterns when the query has n<=6 (thorough: n<=9) cased letters, else lower/UPPER/Title/alternating/last-letter) x paths {lexical, NLP, fuzzy thr 0, fuzzy thr -30, NLP+fuzzy, cached (q then Q, served from q's entry, also compared with a fresh search of Q), suggestions; for queries of >=4 words also lexical with TopTermsCap 4 and NLP with TopTermsCap 5} x databases (all subsets of <=2 (thorough: <=3) of 10 pool entries incl. upper-case and non-ASCII text, the 40-entry database, a Cyrillic/Greek/Latin-1 database, a database with the NLP expansion vocabulary): answers must be bit-identical to the lower-case spelling's; 8 white-space paddings of every query (ASCII and Unicode blanks, leading / trailing / repeated) through ValidateQuery: the validated form is the plain query's, or else every path must answer both forms alike. Letters re-cased only between ToLower/ToUpper forms that are mutually inverse and fold-equivalent. evaluations = searches; non-trivial = pairs with a non-empty answer",
 		Assume:    []string{"map order pinned, host pinned", "CLI-level padding and case pairs are checked at process level in C17"},
 		QuickSecs: 150, ThorSecs: 900,
 		Run: c20Run,
